@@ -250,6 +250,11 @@ func (s *Service) refreshAttesterDutiesForEpoch(ctx context.Context, epoch phase
 	for slot := s.chainTimeService.FirstSlotOfEpoch(epoch); slot < s.chainTimeService.FirstSlotOfEpoch(epoch+1); slot++ {
 		if err := s.scheduler.CancelJob(ctx, fmt.Sprintf("Attestations for slot %d", slot)); err == nil {
 			cancelledJobs[slot] = true
+			// The job has been withdrawn so its attestations are no longer pending; if the refreshed duties
+			// still cover the slot the mark is set again when the new job is scheduled.
+			s.pendingAttestationsMutex.Lock()
+			delete(s.pendingAttestations, slot)
+			s.pendingAttestationsMutex.Unlock()
 		}
 	}
 
